@@ -3,7 +3,7 @@
    defective variants, and Print Assumptions. *)
 From Coq Require Import List String Bool ZArith.
 From Verif Require Import Model.PublicView Gen.GenFields Proofs.PublicViewCore Proofs.PublicView Proofs.PublicViewWallet
-  Proofs.PublicViewArgs Glue.FieldsGlue.
+  Proofs.PublicViewArgs Model.PublicViewPaths Proofs.PublicViewPaths Glue.FieldsGlue.
 Import ListNotations.
 Open Scope string_scope.
 
@@ -376,6 +376,45 @@ Example wallet_public_master_arguments_decide :
       (wallet_public_master_args w [("account_id", AInt 1%Z); ("witness_type", AStr "legacy"); ("network", AStr "litecoin")]) = [VNone].
 Proof. vm_compute. split; reflexivity. Qed.
 
+(* --- public views requested by a PATH: HDKey.subkey_for_path with a path that starts with 'M' (any number of levels,
+       also none: the bare 'M'), and every path asked of a key without private part, return an object without
+       private part.  [sfp] is the reading of the frozen body (Model/PublicViewPaths.v). --- *)
+Theorem public_path_view_clean : forall priv levels, sfp priv StartPublic levels = false.
+Proof. exact sfp_public_path_clean. Qed.
+Theorem public_key_paths_clean : forall s levels, sfp false s levels = false.
+Proof. exact sfp_public_key_clean. Qed.
+Example private_path_is_private : forall levels, sfp true StartPrivate levels = true /\ sfp true StartRelative levels = true.
+Proof. exact sfp_private_path_private. Qed.
+(* the variant that returns early when there is nothing to derive (bare 'M' hands out the key object itself) is refuted *)
+Example bare_public_path_early_return_refuted :
+  let sfp_early priv s levels := if Nat.eqb levels 0 then priv else sfp priv s levels in
+  sfp_early true StartPublic 0 = true /\ sfp true StartPublic 0 = false.
+Proof. vm_compute. split; reflexivity. Qed.
+Theorem subkey_for_path_source_glue :
+  GenFields.hdkey_subkey_for_path_paths = PublicViewPaths.hdkey_subkey_for_path_paths /\
+  GenFields.path_entry_params = PublicViewPaths.path_entry_params.
+Proof. exact subkey_for_path_glue. Qed.
+
+(* --- database rows as text: default exports hand row dictionaries - and, once a relationship has been loaded, the
+       related row objects - to str() / json default=str.  The presentation methods of EVERY class of db.py are the
+       frozen ones; the only class whose text shows a private-bearing column is DbKey (recorded finding
+       dbkey_repr_private_wif) and no class prints a related row. --- *)
+Theorem database_rows_text_glue : GenFields.db_presentation_methods = PublicViewPaths.db_presentation_methods.
+Proof. exact db_presentation_glue. Qed.
+Theorem database_rows_text_reviewed :
+  presenting_classes PublicViewPaths.db_presentation_methods = map fst row_prints.
+Proof. exact presenting_classes_read. Qed.
+Theorem database_rows_print_no_rows : rows_printing_rows = [].
+Proof. exact no_row_prints_rows. Qed.
+(* recorded finding dbkey_in_row_dict: the row dictionary of a transaction row whose `key` relationship has been loaded
+   holds a DbKey object; the dictionaries of key rows hold no DbKey object whatever has been loaded *)
+Example dbkey_in_row_dict_refuted :
+  dict_text_shows_private ["DbTransaction"; "DbKey"] = true /\
+  dict_text_shows_private ["DbKeyMultisigChildren"; "DbTransactionInput"; "DbTransactionOutput"; "DbNetwork"] = false.
+Proof. vm_compute. split; reflexivity. Qed.
+Theorem database_rows_printing_private : rows_printing_private = ["DbKey"].
+Proof. exact rows_printing_private_is_dbkey. Qed.
+
 Print Assumptions public_view_clean.
 Print Assumptions public_view_no_secret.
 Print Assumptions classification_sound.
@@ -406,3 +445,10 @@ Print Assumptions xpublic_view_exports_clean.
 Print Assumptions xdefault_exports_clean.
 Print Assumptions wallet_public_master_args_clean.
 Print Assumptions view_entry_points_glue.
+Print Assumptions public_path_view_clean.
+Print Assumptions public_key_paths_clean.
+Print Assumptions subkey_for_path_source_glue.
+Print Assumptions database_rows_text_glue.
+Print Assumptions database_rows_text_reviewed.
+Print Assumptions database_rows_print_no_rows.
+Print Assumptions database_rows_printing_private.
